@@ -15,6 +15,10 @@
 (*                                                                         *)
 (* An abstract program is a record                                         *)
 (*   [cm, order, err, routes, items]                                       *)
+(*   nm     near-miss: at most one extra feature instance that repeats a   *)
+(*          slot of the program in another (or the same) spelling, or is   *)
+(*          the exclusive alternative of one (see WFNm); whether the       *)
+(*          parser accepts such a text is OBSERVED, never predicted        *)
 (*   cm     comment placement class                                        *)
 (*   order  order of the top-level blocks in the file                      *)
 (*   err    seeded structural error ("none" | "dup_path")                  *)
@@ -56,7 +60,9 @@ VCAll == {"bare",      \* plain unquoted token
           "uni",       \* bare non-ASCII
           "slash",     \* bare value starting with '/'
           "at",        \* bare value starting with '@'
-          "bad"}       \* lexically plain, semantically wrong for the directive
+          "bad",       \* lexically plain, semantically wrong for the directive
+          "ctrl"}      \* non-printable / invisible runes inside the value: NBSP, zero-width space, U+FEFF, U+2028,
+                       \* soft hyphen, private use, control bytes such as ESC, BEL, DEL (quoted, sometimes bare)
 
 \* further values of a multi-value directive: a bare keyword would end the list
 VC2All == VCAll \ {"kw"}
@@ -77,7 +83,8 @@ Pqs     == {"bare",      \* /hooks/p1
             "qph",       \* "{$VAR}" (a bare placeholder does not start with '/', so it is no route)
             "qhash",     \* quoted, '#' inside
             "qesc",      \* quoted, \" and \\ escapes
-            "qbad"}      \* quoted, not starting with '/' (or empty): parses, refused by Compile
+            "qbad",      \* quoted, not starting with '/' (or empty): parses, refused by Compile
+            "qctrl"}     \* quoted, non-printable / invisible runes inside
 PathIds == {"p1", "p2", "p3", "p4"}
 IMAX    == 3
 
@@ -365,12 +372,52 @@ WFRoutes(rs, err) ==
 
 NonEmpty(p) == Len(p.routes) + Len(p.items) > 0      \* an empty file is "empty config", not a configuration
 
+(* Near-miss programs.  The language has several spellings of one setting (publish block / dotted publish.* /      *)
+(* shorthand; shorthand and block forms of queue, metrics, tracing, access_log, runtime_log, auth forward; a        *)
+(* directive written twice).  Most such combinations are refused by the parser today; the model does not say which:  *)
+(* a near-miss program is the well-formed program p.items plus ONE extra instance x that                             *)
+(*   - repeats a slot that p.items already fills (any spelling, optionally with one single-value child), or          *)
+(*   - is the exclusive alternative of a present item (sign hmac / sign hmac secret_ref, publish / publish_mix),      *)
+(* written before or after it in the same block.  The trace specification requires nothing about `parsed` for       *)
+(* them, so a parser that starts (or stops) accepting one of these combinations is exercised by the round-trip       *)
+(* checks as soon as it does.                                                                                        *)
+Partner == {<<"r.deliver.sign_hmac", "r.deliver.sign_ref">>, <<"r.deliver.sign_ref", "r.deliver.sign_hmac">>,
+            <<"r.publish", "r.publish_mix">>, <<"r.publish_mix", "r.publish">>}
+
+\* single-value leaf children (the only children an extra instance may carry)
+IsLeafL(f) == FT[f].sps = {"-"} /\ ~FT[f].pair /\ ~FT[f].idx /\ FT[f].kind # "none" /\ FT[f].nmax = 1
+
+NmItem(x) == [r |-> x.r, f |-> x.f, i |-> x.i, sp |-> x.sp, v |-> x.v, v2 |-> x.v2, n |-> x.n]
+
+WFNm(x, S, nroutes) ==
+  /\ WFItem(NmItem(x), nroutes)
+  /\ x.pos \in {"before", "after"}
+  /\ LET par == FT[x.f].par IN
+     /\ par \notin Roots =>
+          /\ HasItem(S, x.r, par, ParentI(NmItem(x)))
+          /\ LET pit == ItemOf(S, x.r, par, ParentI(NmItem(x))) IN
+             /\ pit.sp \in FT[par].blk
+             /\ par = "r.auth_hmac" => (x.f \notin HmacSecs /\ pit.sp # "inline")
+             /\ (par = "r.publish" /\ pit.sp = "dot") => x.f # "r.publish.enabled"
+     /\ x.f = "r.auth_hmac" => x.sp = "block"
+     /\ (x.f = "r.publish" /\ x.sp = "dot") => x.kf \in {"r.publish.direct", "r.publish.managed"}
+  /\ IF x.kf = "-" THEN x.kv = "-"
+     ELSE /\ x.kf \in FeatIds /\ FT[x.kf].par = x.f /\ x.sp \in FT[x.f].blk /\ IsLeafL(x.kf)
+          /\ x.kv \in VCAll
+          /\ x.f = "r.auth_hmac" => x.kf \notin HmacSecs
+  /\ \/ HasItem(S, x.r, x.f, x.i)                                                     \* repeats a slot
+     \/ \E y \in S : y.r = x.r /\ <<y.f, x.f>> \in Partner /\ (IdxRootT[x.f] = "-" \/ y.i = x.i)  \* exclusive alternative
+
+NmCount(p) == Len(p.nm) + Cardinality({k \in DOMAIN p.nm : p.nm[k].kf # "-"})   \* instances the renderer writes for nm
+
 WFProgram(p) ==
   /\ NonEmpty(p)
   /\ p.cm \in CmClasses /\ p.order \in OrderClasses /\ p.err \in ErrClasses
   /\ WFRoutes(p.routes, p.err)
   /\ WFItems(SeqRange(p.items), Len(p.routes))
   /\ Cardinality(SeqRange(p.items)) = Len(p.items)
+  /\ Len(p.nm) <= 1
+  /\ \A k \in DOMAIN p.nm : WFNm(p.nm[k], SeqRange(p.items), Len(p.routes))
 
 -----------------------------------------------------------------------------
 (* Validity tag: coverage accounting only, never an oracle.                 *)
@@ -428,7 +475,8 @@ CrossRule == {"ingress.tls", "pull_api.tls", "admin_api.tls", "obs.tracing.tls",
 
 Tag(p) ==
   LET S == SeqRange(p.items) IN
-  IF SeededInvalid(p) THEN "invalid"
+  IF p.nm # << >> THEN "nearmiss"
+  ELSE IF SeededInvalid(p) THEN "invalid"
   ELSE IF /\ \A x \in S : x.v \in SafeVC \cup {"-"} /\ x.v2 \in SafeVC \cup {"-"}
           /\ \A x \in S : x.f \notin CrossRule
           /\ \A k \in DOMAIN p.routes : p.routes[k].pq \in {"bare", "quoted"}
